@@ -175,6 +175,28 @@ func RegisterCore(p *Program) {
 		out = append(out, in.byteConst('\n'))
 		return Str{out}
 	}
+	fwrite := func(in *Interp, fr *frame, w Iface, s Str) Value {
+		if w.T == nil {
+			panic(in.goPanicStr("runtime error: invalid memory address or nil pointer dereference"))
+		}
+		fn := in.lookupMethodByName(w.T, "Write")
+		var buf Slice
+		if len(s.B) == 0 {
+			buf = Slice{Obj: in.newArray(types.Typ[types.Byte], 0)}
+		} else {
+			buf = in.newByteSlice(s.B)
+		}
+		return in.call(fn, []Value{w.V, buf}, nil, fr)
+	}
+	I["fmt.Fprintf"] = func(in *Interp, fr *frame, a []Value) Value {
+		return fwrite(in, fr, a[0].(Iface), in.sprintf(fr, a[1].(Str), a[2].(Slice)))
+	}
+	I["fmt.Fprint"] = func(in *Interp, fr *frame, a []Value) Value {
+		return fwrite(in, fr, a[0].(Iface), I["fmt.Sprint"](in, fr, a[1:]).(Str))
+	}
+	I["fmt.Fprintln"] = func(in *Interp, fr *frame, a []Value) Value {
+		return fwrite(in, fr, a[0].(Iface), I["fmt.Sprintln"](in, fr, a[1:]).(Str))
+	}
 	nop := func(in *Interp, fr *frame, a []Value) Value { return nil }
 	nopN := func(n int) Intrinsic {
 		return func(in *Interp, fr *frame, a []Value) Value {
